@@ -125,7 +125,13 @@ def hash_combiners(ctx, rule):
 def r06_2(ctx):
     h = ctx.prog.func(VF + '.Expr.hash')
     r = guards.returns_of(h.node)[-1].value
-    t = src(r).replace(' ', '')
+    t = src(resolve.expand(r, guards.returns_of(h.node)[-1])).replace(' ', '')
+    # a key accumulated in a local (key = (...); key += ...): every value that flows into the hashed local counts
+    if isinstance(r, ast.Call) and call_name(r) == 'hash' and len(r.args) == 1 and isinstance(r.args[0], ast.Name):
+        nm = r.args[0].id
+        flows = [src(s_.value) for s_ in own_nodes(h.node) if (isinstance(s_, ast.Assign) and any(isinstance(t_, ast.Name) and t_.id == nm for t_ in s_.targets))
+                 or (isinstance(s_, ast.AugAssign) and isinstance(s_.target, ast.Name) and s_.target.id == nm and isinstance(s_.op, ast.Add))]
+        t = 'hash(' + '+'.join(flows).replace(' ', '') + ')'
     parts = ['type(self)', 'self.shape', 'self.hash_key()', 'child_hashes']
     present = [p for p in parts if p in t]
     ok = t.startswith('hash(') and len(present) == 4
@@ -238,9 +244,17 @@ def r06_4(ctx):
 
 
 # ------------------------------------------------------------------ R06.5
-def _rule_expr(e):
-    """Translate a rule's result expression into a Rat over symbols x, y, dx, dy, t."""
+def _rule_expr(e, strict=False):
+    """Translate a rule's result expression into a Rat over symbols x, y, dx, dy, t.  strict: an operand that is not one of the
+    known atoms (a local helper, a table lookup, a temporary without definition) makes the expression unreadable
+    (NotPolynomial) instead of becoming a symbol of its own."""
     def atom(n):
+        r = atom0(n)
+        if r is None and strict and isinstance(n, (ast.Name, ast.Call, ast.Attribute, ast.Subscript)):
+            raise poly.NotPolynomial(src(n))
+        return r
+
+    def atom0(n):
         t = src(n).replace(' ', '')
         if t == 'self.x':
             return 'x'
@@ -272,15 +286,26 @@ def r06_5(ctx):
     seen = set()
     # the dispatch on self.oper is EVALUATED for each operator (order of the branches, `in (...)` tests, merged branches and
     # early returns do not matter): the statements that remain must return the rule of that operator
+    aliases = [s_.targets[0].id for s_ in f.node.body if isinstance(s_, ast.Assign) and len(s_.targets) == 1 and isinstance(s_.targets[0], ast.Name)
+               and src(s_.value) == 'self.oper']
     for op in ('+', '-', '*', '/'):
-        live = guards.specialise(f.node.body, {'self.oper': op})
-        ret = [s_ for s_ in live if isinstance(s_, ast.Return)]
-        if not ret or any(isinstance(s_, ast.If) and 'self.oper' in src(s_.test) for s_ in live):
+        env = {'self.oper': op}
+        env.update({a_: op for a_ in aliases})
+        live = guards.specialise(f.node.body, env)
+        # the first exit of the specialised body, provided no undecided branch comes before it
+        ret = []
+        for s_ in live:
+            if isinstance(s_, ast.Return):
+                ret = [s_]
+                break
+            if isinstance(s_, (ast.If, ast.For, ast.While, ast.Try, ast.With)) and any(isinstance(x, (ast.Return, ast.Raise)) for x in ast.walk(s_)):
+                break
+        if not ret:
             ctx.undecided('R06.5', f.qual, "d(x %s y)" % op, f.node, 'dispatch on self.oper not decided')
             continue
         seen.add(op)
         try:
-            got = _rule_expr(resolve.expand(ret[0].value, ret[0]))
+            got = _rule_expr(resolve.expand(ret[0].value, ret[0]), strict=True)
             ok = (got == rules[op])
         except poly.NotPolynomial:
             ok = None
